@@ -91,8 +91,15 @@ def _observe(job):
             m.set_random_state(1)
             s = m.sample(6)
             p = np.asarray(m.probability_density(df.iloc[:4]), dtype=float)
-            rec['usable'] = bool(len(s) == 6 and not s.isna().any().any() and np.isfinite(s.to_numpy(dtype=float)).all() and
-                                 np.isfinite(p).all() and (p >= 0).all())
+            ok = bool(len(s) == 6 and not s.isna().any().any() and np.isfinite(s.to_numpy(dtype=float)).all() and
+                      np.isfinite(p).all() and (p >= 0).all())
+            # conditional sampling inverts a block of the matrix: the ridge must make that possible too
+            nonconst = [c for c in cols if df[c].nunique() > 1]
+            given = nonconst[:2] if len(nonconst) >= 3 else nonconst[:1]
+            if ok and len(cols) > len(given) >= 1:
+                cs = m.sample(4, conditions={c: float(df[c].iloc[0]) for c in given})
+                ok = bool(len(cs) == 4 and not cs.isna().any().any() and np.isfinite(cs.to_numpy(dtype=float)).all())
+            rec['usable'] = ok
         except Exception:
             rec['usable'] = False
     except Exception as ex:
